@@ -1,4 +1,5 @@
 import ColoVerif.Model.Expand
+import ColoVerif.Model.ExpandF
 import Driver.CircuitIO
 /-
 Driver for C18: replays the harness' operations on the expansion model.  Floating-point values travel
@@ -14,6 +15,14 @@ as exact dyadic rationals `<mant> <exp2>` (value = mant * 2^exp2, mant odd or 0 
   byfactor_legacy …                          same with the pre-repair accumulation of the expanded area
   cellexp <fp> <fpe> <pf> <pfe> (<minX> <maxX> <minY> <maxY> <c> <ce>)*
         -> cellexp (<mant> <exp>)*  |  throw:runtime_error
+
+The same four operations on the binary64/binary32-exact model `Model/ExpandF.lean` (arbitrary, non-dyadic
+arguments; every answer compared exactly with the real code):
+  rowareaF …   -> rowareaF <n>            todensityF … -> widthsF w0 w1 …
+  byfactorF <d> <de> <m> <me> (<f> <fe>)* -> byfactorF <ret mant> <ret exp> widths w0 w1 … | throw:runtime_error
+  cellexpF …   -> cellexpF (<mant> <exp>)* | throw:runtime_error
+each answers `out-of-domain` when the guard of the operation (`ExpandF.rowGuard`, `densityGuard`,
+`byFactorGuard`, `cellExpansionGuard`) is false.
 -/
 open ColoVerif ColoVerif.Expand Driver
 
@@ -71,6 +80,27 @@ def step (c : Circuit) (ws : List String) : Circuit × List String :=
       match computeCellExpansion c (regions (ints rest)) (dyadic (int! fp) (int! fpe)) (dyadic (int! pf) (int! pfe)) with
       | none => (c, ["throw:runtime_error"])
       | some l => (c, [("cellexp " ++ " ".intercalate (l.map showDyadic)).trimAscii.toString])
+    | ["rowareaF", m, e] =>
+      if ExpandF.rowGuard c (dyadic (int! m) (int! e)) then
+        (c, [s!"rowareaF {ExpandF.rowPlacementArea c (dyadic (int! m) (int! e))}"])
+      else (c, ["out-of-domain"])
+    | ["todensityF", t, te, m, me, x, xe] =>
+      if ExpandF.densityGuard c (dyadic (int! t) (int! te)) (dyadic (int! m) (int! me)) (dyadic (int! x) (int! xe)) then
+        (c, [showWidths (ExpandF.expandCellsToDensity c (dyadic (int! t) (int! te)) (dyadic (int! m) (int! me))
+              (dyadic (int! x) (int! xe))) ++ " F"])
+      else (c, ["out-of-domain"])
+    | "byfactorF" :: d :: de :: m :: me :: rest =>
+      if ExpandF.byFactorGuard c (dyadics (ints rest)) (dyadic (int! d) (int! de)) (dyadic (int! m) (int! me)) then
+        (c, [showByFactor true (ExpandF.expandCellsByFactor c (dyadics (ints rest)) (dyadic (int! d) (int! de))
+              (dyadic (int! m) (int! me))) ++ " F"])
+      else (c, ["out-of-domain"])
+    | "cellexpF" :: fp :: fpe :: pf :: pfe :: rest =>
+      if ExpandF.cellExpansionGuard (regions (ints rest)) (dyadic (int! fp) (int! fpe)) (dyadic (int! pf) (int! pfe)) then
+        match ExpandF.computeCellExpansion c (regions (ints rest)) (dyadic (int! fp) (int! fpe))
+            (dyadic (int! pf) (int! pfe)) with
+        | none => (c, ["throw:runtime_error F"])
+        | some l => (c, [("cellexpF " ++ " ".intercalate (l.map showDyadic)).trimAscii.toString])
+      else (c, ["out-of-domain"])
     | [] => (c, [])
     | ws => (c, ["bad-op " ++ " ".intercalate ws])
 
